@@ -204,9 +204,16 @@ def run(repo: Repo, rep: Report, tier: str) -> None:
     clo = cg.closure([ev.key])
     residue_rule(repo, rep, R5, cg, clo, [ev.key])
     # rename the generic key so that evidence reads naturally
-    # ---- R6
+    lookup_order_rule(repo, rep, R6)
+
+
+def lookup_order_rule(repo: Repo, rep: Report, R6: str) -> None:
+    """Identifiers resolve first in the supplied field context, then in the constants (shared by C10.R6 and C07.R8)."""
+    rep.rule(R6, "operand lookup order: literal, then the supplied context, then the constants")
+    ev = repo.func("expression.py", "Expression.evaluate")
+    g = CFG(ev.node)
     chain_nodes = []
-    loopw = [n for n in g.nodes if n.kind == "while" and "len(tmp_expression)" in norm(n.ast.test) or (n.kind == "while" and "< len(" in norm(n.ast.test))]
+    loopw = [n for n in g.nodes if n.kind == "while" and ("< len(" in norm(n.ast.test))]
     if not loopw:
         raise AnalysisError("Expression.evaluate: main token loop not found")
     first_if = next((s for s in loopw[0].ast.body if isinstance(s, ast.If)), None)
@@ -223,6 +230,17 @@ def run(repo: Repo, rep: Report, tier: str) -> None:
         return -1
 
     i_num = idx(lambda t: "is_number" in t)
+    # a single merged mapping: ChainMap(<context>, <consts>) searches its first mapping first
+    merged = [s for s in walk_body(ev.node.body) if isinstance(s, ast.Assign) and isinstance(s.value, ast.Call) and call_name(s.value) == "ChainMap"]
+    if merged:
+        m = merged[0]
+        a = [norm(x) for x in m.value.args]
+        ok = len(a) >= 2 and "context" in a[0] and "consts" not in a[0] and "consts" in a[1]
+        i_map = idx(lambda t: t.endswith("in " + norm(m.targets[0])))
+        rep.check(ok and 0 <= i_num < i_map, R6, f"{ev.key}:operand-chain", f"ChainMap({', '.join(a)}): context first, constants second",
+                  f"identifiers are looked up in ChainMap({', '.join(a)}): the first mapping wins, so constants shadow the fields parsed before "
+                  f"the expression (x[count] with '#define count 4' ignores the field 'count')", ev.loc(m))
+        return
     i_ctx = idx(lambda t: t.endswith("in context"))
     i_const = idx(lambda t: "consts" in t)
     rep.check(0 <= i_num < i_ctx < i_const, R6, f"{ev.key}:operand-chain", f"literal (#{i_num}) -> context (#{i_ctx}) -> consts (#{i_const})",
@@ -234,3 +252,6 @@ def run(repo: Repo, rep: Report, tier: str) -> None:
             pushed = [norm(c.args[0]) for s in body for c in ast.walk(s) if isinstance(c, ast.Call) and call_name(c) == "append" and c.args]
             rep.check(any(src in p for p in pushed), R6, f"{ev.key}:arm {tests[i]}", f"pushes {pushed}",
                       f"arm '{tests[i]}' pushes {pushed}, not the value looked up in the same mapping ({src})", ev.loc(chain_nodes[i]))
+    ctxdef = [s for s in walk_body(ev.node.body) if isinstance(s, ast.Assign) and norm(s.targets[0]) == "context"]
+    rep.check(all(norm(s.value) in ("context or {}", "{} if context is None else context", "context if context is not None else {}") for s in ctxdef), R6,
+              f"{ev.key}:context-default", "a missing context is an empty mapping", f"context is rebound to {[norm(s.value) for s in ctxdef]}", ev.loc())
